@@ -33,13 +33,51 @@ var (
 	flatOff     = os.Getenv("VERIF_NOFLATTEN") != ""
 )
 
-func resetFlatRoots() { flatRoots = map[*ssa.Function]bool{} }
+func resetFlatRoots() { flatRoots = map[*ssa.Function]bool{}; focusRoot = nil }
 
 func flatRoot(fn *ssa.Function) *ssa.Function {
 	if fn != nil && !flatOff {
 		flatRoots[fn] = true
+		focusRoot = fn
 	}
 	return fn
+}
+
+// focusRoot: the anchored function a rule looked up last. A new helper that several anchored functions call with
+// different arguments is read, for names and values, through the call sites that lie below the function in focus.
+var focusRoot *ssa.Function
+
+// sitesOf: the call sites of new helper h below the function in focus (all of them when none lies there).
+func sitesOf(h *ssa.Function) []*ssa.Call {
+	all := helperSites[h]
+	if focusRoot == nil || len(all) < 2 {
+		return all
+	}
+	var under func(f *ssa.Function, d int) bool
+	under = func(f *ssa.Function, d int) bool {
+		if f == focusRoot {
+			return true
+		}
+		if d > 5 || !flattenable[f] {
+			return false
+		}
+		for _, s := range helperSites[f] {
+			if under(s.Parent(), d+1) {
+				return true
+			}
+		}
+		return false
+	}
+	var out []*ssa.Call
+	for _, s := range all {
+		if under(s.Parent(), 0) {
+			out = append(out, s)
+		}
+	}
+	if len(out) == 0 {
+		return all
+	}
+	return out
 }
 
 // computeNewHelpers fills flattenable/helperSites for the universe.
@@ -225,7 +263,7 @@ func helperParamName(p *ssa.Parameter, d int) (string, bool) {
 		return "", false
 	}
 	name := ""
-	for _, s := range helperSites[h] {
+	for _, s := range sitesOf(h) {
 		if idx >= len(s.Call.Args) {
 			return "", false
 		}
@@ -524,7 +562,27 @@ func helperReturnLits(h *ssa.Function, wantNil bool, depth int) ([][]Lit, bool) 
 				continue
 			}
 			ps, okp := reachingLitsOwn(h, nil, ret)
-			ps, oke := expandHelperNilChecks(ps, depth)
+			// a path on which the returned value itself was tested decides what it is there: "if err != nil { return
+			// nil, err }" returns a non-nil error, whatever the static type of err allows
+			var kept [][]Lit
+			for _, p := range ps {
+				known := 0 // +1 known nil, -1 known non-nil
+				for _, l := range p {
+					for _, v := range resolveSpill(last) {
+						if isNilCheckOf(l, v, true) || isNilCheckOf(l, stripIface(v), true) {
+							known = 1
+						}
+						if isNilCheckOf(l, v, false) || isNilCheckOf(l, stripIface(v), false) {
+							known = -1
+						}
+					}
+				}
+				if (wantNil && known == -1) || (!wantNil && known == 1) {
+					continue
+				}
+				kept = append(kept, p)
+			}
+			ps, oke := expandHelperNilChecks(kept, depth)
 			ok = ok && okp && oke
 			out = append(out, ps...)
 		}
@@ -580,7 +638,7 @@ func helperArgs(p *ssa.Parameter) []ssa.Value {
 		}
 	}
 	var out []ssa.Value
-	for _, s := range helperSites[h] {
+	for _, s := range sitesOf(h) {
 		if idx >= 0 && idx < len(s.Call.Args) {
 			out = append(out, s.Call.Args[idx])
 		}
